@@ -727,11 +727,19 @@ impl Display for LinearModel {
         } else {
             "".to_string()
         };
-        write!(
-            f,
-            "{} {}\ns.t.\n{}{}",
-            self.optimization_type, objective, constraints, domain
-        )
+        match self.optimization_type {
+            // the grammar accepts `solve` alone, a satisfiability problem has no objective
+            OptimizationType::Satisfy => write!(
+                f,
+                "{}\ns.t.\n{}{}",
+                self.optimization_type, constraints, domain
+            ),
+            _ => write!(
+                f,
+                "{} {}\ns.t.\n{}{}",
+                self.optimization_type, objective, constraints, domain
+            ),
+        }
     }
 }
 
